@@ -118,17 +118,26 @@ impl Gen {
     pub fn users(&self) -> Vec<String> {
         self.sim.users.iter().map(|u| u.0.clone()).collect()
     }
-    fn user(&mut self) -> String {
+    pub fn user(&mut self) -> String {
         let n = self.sim.users.len() as u64;
         self.sim.users[self.rng.below(n) as usize].0.clone()
     }
-    fn nonowner(&mut self) -> String {
+    pub fn nonowner(&mut self) -> String {
         let n = self.sim.users.len() as u64;
         self.sim.users[1 + self.rng.below(n - 1) as usize].0.clone()
     }
+    pub fn query(&mut self, q: SQuery) -> crate::val::Val {
+        let v = self.sim.query(&q);
+        let ok = matches!(&v, crate::val::Val::L(xs) if xs.len() == 2);
+        *self.hist.entry(format!("{}:{}", q.kind(), if ok { "ok" } else { "err" })).or_insert(0) += 1;
+        self.obs.push(crate::val::vl(vec![crate::val::vz(2), v.clone()]));
+        self.ops.push(SOp::Query(q));
+        self.oks.push(ok);
+        v
+    }
     pub fn push(&mut self, op: SOp) -> bool {
         let ok = self.sim.step(&op);
-        let kind = match &op { SOp::Tx { msg, .. } => msg.kind(), SOp::SetBlock { .. } => "block", SOp::BankSend { .. } => "bank_send", SOp::SetFault(_) => "fault" };
+        let kind = match &op { SOp::Tx { msg, .. } => msg.kind(), SOp::SetBlock { .. } => "block", SOp::BankSend { .. } => "bank_send", SOp::SetFault(_) => "fault", SOp::Query(q) => q.kind() };
         *self.hist.entry(format!("{}:{}", kind, if ok { "ok" } else { "err" })).or_insert(0) += 1;
         self.obs.push(crate::val::vl(vec![crate::val::vbool(ok), self.sim.snapshot()]));
         self.ops.push(op);
@@ -139,11 +148,11 @@ impl Gen {
         let target = msg.target().to_string();
         self.push(SOp::Tx { sender: sender.to_string(), target, msg, funds })
     }
-    fn fresh_id(&mut self, prefix: &str) -> String {
+    pub fn fresh_id(&mut self, prefix: &str) -> String {
         self.id_seq += 1;
         format!("{}{}", prefix, self.id_seq)
     }
-    fn opt_slip(&mut self) -> Option<u128> {
+    pub fn opt_slip(&mut self) -> Option<u128> {
         match self.rng.below(8) {
             0 => Some(0),
             1 => Some(DEC / 100),
@@ -155,7 +164,7 @@ impl Gen {
             _ => None,
         }
     }
-    fn opt_receiver(&mut self) -> Option<String> {
+    pub fn opt_receiver(&mut self) -> Option<String> {
         match self.rng.below(8) {
             0 => Some(self.user()),
             1 => Some("FC".to_string()),
@@ -242,7 +251,7 @@ impl Gen {
         self.tx(&sender, SMsg::PmCreatePool { denoms, decimals, fees, amp, id }, funds);
     }
 
-    fn pick_pool(&mut self) -> Option<pmm::PoolInfoResponse> {
+    pub fn pick_pool(&mut self) -> Option<pmm::PoolInfoResponse> {
         let ps = self.sim.pools();
         if ps.is_empty() { None } else { Some(ps[self.rng.below(ps.len() as u64) as usize].clone()) }
     }
@@ -519,7 +528,7 @@ impl Gen {
     }
 
     // ------------------------------------------------------------ farm manager ops
-    fn lp_denoms(&self) -> Vec<String> {
+    pub fn lp_denoms(&self) -> Vec<String> {
         self.sim.pools().iter().map(|p| self.sim.sym(&p.pool_info.lp_denom)).collect()
     }
     pub fn op_farm(&mut self) {
